@@ -1669,6 +1669,10 @@ func (h *RequestHeader) SetCookie(key, value string) {
 	h.collectCookies()
 	h.bufK = initHeaderValueString(h.bufK, key)
 	h.bufV = initHeaderValueString(h.bufV, value)
+	// ';' separates cookie pairs in the Cookie header, so it must not
+	// appear inside a key or a value.
+	h.bufK = removeSemicolons(h.bufK)
+	h.bufV = removeSemicolons(h.bufV)
 	h.cookies = setArgBytes(h.cookies, h.bufK, h.bufV, argsHasValue)
 }
 
